@@ -17,6 +17,9 @@
 (*         the cycles c0 .. c0+Lat, c0 = first cycle with rx_active low;   *)
 (*         WHICH one is left free (latency is not part of the property).   *)
 (*         No event may be reported at any other time.                     *)
+(*         A domain reset (i.rst) returns the detector to idle: nothing is   *)
+(*         owed any more, frame = 0; the remainder of a packet that was on *)
+(*         the bus during the reset is not constrained (`blind`).          *)
 (*  Prop : over the ghost logs of ended packets and reported events:       *)
 (*         events reported = exactly the events of the well-formed packets,*)
 (*         in order, each once; the frame number changes only by a SOF.    *)
@@ -25,7 +28,9 @@ EXTENDS CRC
 
 CONSTANTS Mode,        \* "token" | "handshake"
           Lat,         \* the event of a packet is reported at the latest Lat cycles after rx_active fell
-          MinGap       \* Env: rx_active stays low for at least MinGap cycles between packets
+          MinGap,      \* Env: rx_active stays low for at least MinGap cycles between packets
+          FilterByAddress  \* configuration of the token detector: TRUE = report only tokens for the device address,
+                       \* FALSE = report every well-formed token (with its address)
 
 ASSUME Mode \in {"token", "handshake"}
 ASSUME Lat \in Nat /\ MinGap \in Nat /\ MinGap >= 1 /\ MinGap >= Lat     \* a packet's window closes before the next packet can end
@@ -36,12 +41,14 @@ VARIABLES act,         \* rx_active in the previous cycle
           age,         \* cycles since that packet ended
           quiet,       \* consecutive cycles with rx_active low so far (saturating)
           frame,       \* frame number last reported (token mode)
+          blind,       \* > 0: a domain reset hit while a packet was on the bus; what the detector makes of the
+                       \*      rest of that packet is not constrained (until its report window has passed)
           in,          \* Env: inputs of the cycle that led to this state
           out,         \* outputs observed / allowed in that cycle
           pktLog,      \* ghost: every ended packet with the address in force when it ended
           evLog        \* ghost: every reported event, in order
 
-vars == <<act, pkt, pend, age, quiet, frame, in, out, pktLog, evLog>>
+vars == <<act, pkt, pend, age, quiet, frame, blind, in, out, pktLog, evLog>>
 
 -----------------------------------------------------------------------------
 (* Packet identifiers [USB2.0 Table 8-1]: low nibble = PID, high nibble = its complement *)
@@ -69,7 +76,7 @@ ExpectToken(p, a) ==
     IF Len(p) = 3 /\ PidOk(p[1]) /\ PidOf(p[1]) \in (TokenPids \cup {PID_SOF}) /\ TokenCrcOk(p[2], p[3])
     THEN LET v11 == (p[2] + 256 * p[3]) % 2048            \* addr[0..6] endp[0..3], or the frame number
          IN IF PidOf(p[1]) = PID_SOF THEN Sof(v11)          \* start of frame: no address test
-            ELSE IF v11 % 128 = a THEN Token(PidOf(p[1]), v11 % 128, v11 \div 128)
+            ELSE IF ~FilterByAddress \/ v11 % 128 = a THEN Token(PidOf(p[1]), v11 % 128, v11 \div 128)
             ELSE NoEvent                                    \* somebody else's token
     ELSE NoEvent                                            \* truncated / over-long / bad check nibble / bad CRC / not a token
 
@@ -87,7 +94,7 @@ EnvViolation(i) ==
     IF i.v /\ ~i.a THEN "env_rx_valid_without_rx_active"
     ELSE IF ~act /\ i.a /\ i.v THEN "env_byte_in_first_active_cycle"
     ELSE IF ~act /\ i.a /\ quiet < MinGap THEN "env_interpacket_gap_too_short"
-    ELSE IF i.addr # in.addr /\ ~(~act /\ ~i.a /\ quiet >= Lat + 1) THEN "env_address_changed_while_busy"
+    ELSE IF i.addr # in.addr /\ ~(~act /\ ~i.a) THEN "env_address_changed_during_packet"
     ELSE "ok"
 
 -----------------------------------------------------------------------------
@@ -106,7 +113,8 @@ SelOk(o) == \/ Mode # "token" \/ o.ev = <<>> \/ o.ev[1].k # "tok"
 
 \* first violated clause of the observation relation ("ok" if o is an allowed output)
 OutViolationP(i, o, p1) ==
-    IF o.ev # <<>> /\ p1 = NoEvent THEN "event_without_wellformed_packet"
+    IF blind > 0 THEN "ok"                  \* (after a mid-packet reset: unconstrained until the window has passed)
+    ELSE IF o.ev # <<>> /\ p1 = NoEvent THEN "event_without_wellformed_packet"
     ELSE IF o.ev # <<>> /\ o.ev # <<p1>> THEN "event_fields_or_kind"
     ELSE IF o.ev = <<>> /\ p1 # NoEvent /\ Age1(i) >= Lat THEN "event_missing"
     ELSE IF o.frame # Frame1P(o, p1) THEN "frame_number"
@@ -114,23 +122,29 @@ OutViolationP(i, o, p1) ==
     ELSE "ok"
 OutViolation(i, o) == OutViolationP(i, o, Pend1(i))
 
-Init == /\ act = FALSE /\ pkt = <<>> /\ pend = NoEvent /\ age = 0 /\ quiet = QuietSat /\ frame = 0
-        /\ in = [a |-> FALSE, v |-> FALSE, d |-> 0, addr |-> 0]
+Init == /\ act = FALSE /\ pkt = <<>> /\ pend = NoEvent /\ age = 0 /\ quiet = QuietSat /\ frame = 0 /\ blind = 0
+        /\ in = [a |-> FALSE, v |-> FALSE, d |-> 0, addr |-> 0, rst |-> FALSE]
         /\ out = [ev |-> <<>>, frame |-> 0, sel |-> <<FALSE, FALSE, FALSE, FALSE>>]
         /\ pktLog = <<>> /\ evLog = <<>>
 
+\* i.rst: the reset of the detector's clock domain is asserted in this cycle (it acts at the clock edge that ends
+\* the cycle, so the outputs of the cycle itself are still the ordinary ones).  Afterwards the detector is idle, owes
+\* nothing and its frame number is back to 0; if a packet was on the bus, the rest of it is not constrained.
 StepP(i, o, p1) ==
     /\ in' = i /\ out' = o
     /\ act' = i.a
-    /\ pkt' = IF ~act /\ i.a THEN <<>>
+    /\ pkt' = IF i.rst \/ (~act /\ i.a) THEN <<>>
               ELSE IF i.a /\ i.v THEN Append(pkt, i.d)
               ELSE pkt
     /\ quiet' = IF i.a THEN 0 ELSE IF quiet < QuietSat THEN quiet + 1 ELSE quiet
-    /\ pend' = IF o.ev # <<>> THEN NoEvent ELSE p1
-    /\ age' = IF o.ev # <<>> \/ p1 = NoEvent THEN 0 ELSE Age1(i) + 1
-    /\ frame' = o.frame
-    /\ pktLog' = IF Ended(i) THEN Append(pktLog, [bytes |-> pkt, addr |-> i.addr]) ELSE pktLog
-    /\ evLog' = evLog \o o.ev
+    /\ blind' = IF i.a /\ (i.rst \/ blind > 0) THEN Lat + 1
+                ELSE IF blind > 0 THEN blind - 1 ELSE 0
+    /\ pend' = IF i.rst \/ blind > 0 \/ o.ev # <<>> THEN NoEvent ELSE p1
+    /\ age' = IF i.rst \/ blind > 0 \/ o.ev # <<>> \/ p1 = NoEvent THEN 0 ELSE Age1(i) + 1
+    /\ frame' = IF i.rst THEN 0 ELSE o.frame
+    /\ pktLog' = IF i.rst THEN <<>>                                   \* (the history restarts with a reset)
+                 ELSE IF Ended(i) /\ blind = 0 THEN Append(pktLog, [bytes |-> pkt, addr |-> i.addr]) ELSE pktLog
+    /\ evLog' = IF i.rst THEN <<>> ELSE IF blind > 0 THEN evLog ELSE evLog \o o.ev
 Step(i, o) == StepP(i, o, Pend1(i))
 
 -----------------------------------------------------------------------------
@@ -161,7 +175,11 @@ AllJustified(evs, log) ==
 EveryEventJustified == AllJustified(evLog, pktLog)
 
 \* the frame number changes only in a cycle that reports a SOF, to that SOF's number
-FrameOnlyBySof == [][frame' # frame => (out'.ev # <<>> /\ out'.ev[1].k = "sof" /\ frame' = out'.ev[1].x)]_vars
+FrameOnlyBySof == [][(frame' # frame /\ ~in'.rst /\ blind = 0)
+                         => (out'.ev # <<>> /\ out'.ev[1].k = "sof" /\ frame' = out'.ev[1].x)]_vars
+
+\* a domain reset leaves nothing owed and the frame number cleared
+ResetClears == [][in'.rst => (pend' = NoEvent /\ frame' = 0 /\ pkt' = <<>>)]_vars
 
 \* at most one event per cycle
 OneEventPerCycle == Len(out.ev) <= 1
